@@ -47,6 +47,9 @@ C14)
   build "$W/free" ./cmd/$LC -race -tags free || exit 3
   export VERIF_FREE_BIN="$W/free"
   ;;
+C15)
+  build "$W/bin" ./cmd/$LC || exit 3
+  ;;
 *) echo "unknown property $ID" >&2; exit 3;;
 esac
 
